@@ -9,11 +9,62 @@ HOOK_COMMITS = subprocess.run(
 TECH = "deterministic simulation with fault injection (seeded search over schedules and fault sequences; whole anemo networks on an in-memory datagram fabric under a virtual clock)"
 
 # id -> (category, design_ref, text, note, technique)
+NET_NOTE = "Real anemo/quinn/rustls/tokio code on a simulated socket, clock and scheduler (hooks H1-H6); bounded node counts, run lengths and message sizes; single-threaded interleavings at await-point granularity; TLS randomness real (contents only)."
 CLAIMED = {
+ "C01": ("exploration", "DESIGN.md §8 C01",
+   "Seeded search over adversarial handshakes: a raw QUIC endpoint holding only key K' dials / is dialed by real Networks presenting replayed, re-signed, expired, multi-certificate, byte-mutated and missing certificates under loss/duplication/corruption; every PeerId a Network returns, lists, announces or attributes on requests/responses must be a key the remote endpoint holds (ground-truth ledger); controls prove the adversary is admitted under its own identity. Single-byte mutations and non-Ed25519 certificates are also run directly against the three certificate verifiers. Sampling, not proof.",
+   NET_NOTE, TECH),
+ "C02": ("exploration", "DESIGN.md §8 C02",
+   "Seeded search: 2-3 real Networks issue concurrent RPCs (up to 64 in flight, beyond the stream limit) in both directions with PRNG content 0..1 MiB (thorough 4 MiB), PRNG handler durations and a PRNG fault schedule (loss, duplication, reordering, corruption, delay spikes, partitions, stalls); oracle over the recorded history: each nonce reaches a handler at most once with exactly the sent content and sender, every Ok response is exactly the handler's response for that nonce; fault-free configuration separately with the strict oracle; bounded liveness as progress after faults stop.",
+   NET_NOTE, TECH),
+ "C03": ("exploration", "DESIGN.md §8 C03",
+   "Seeded search over address books: each dialed address hosts the expected peer, another honest identity, an impostor replaying the expected certificate (with the acknowledgement implemented) or nobody; concurrent connect/connect_with_peer_id under handshake loss; Ok(p) implies the endpoint reached holds p's key, p equals the expectation and p was listed before the call returned; mismatches never produce NewPeer, listing or handler invocations on either side.",
+   NET_NOTE, TECH),
+ "C04": ("exploration", "DESIGN.md §8 C04",
+   "Two engines: (a) network histories of dials, re-dials (replacement), disconnects, remote closes, restarts and partitions among 3-5 Networks with observers calling peers()/peer()/subscribe() at PRNG instants; per subscription snapshot+events must reproduce peers(), alternate strictly per peer and never lose a replacement; (b) the real active-peer set driven directly with real connections in seeded operation orders against a reference map, where the late exit of a replaced connection's handler is produced on every run.",
+   NET_NOTE + " Races that need two OS threads inside a synchronous critical section are out of reach (DESIGN.md §11).", TECH),
  "C05": ("exploration", "DESIGN.md §8 C05",
-   "Seeded search: two real Networks dial each other with PRNG-chosen offsets, per-datagram latencies, duplication, reordering and (separately) loss until both dials returned; after a quiet period derived from the configured timeouts each must list the other exactly once, RPCs succeed both ways, no further events arrive and, when both dials succeeded, the survivor is the connection dialed by the greater PeerId. Sampling, not proof.",
-   "Real anemo/quinn/rustls code on a simulated socket, clock and scheduler; bounded to 2 nodes; single-threaded interleavings at await-point granularity.",
-   TECH),
+   "Seeded search: two real Networks dial each other with PRNG-chosen offsets, per-datagram latencies, duplication, reordering and (separately) loss until both dials returned; after a quiet period derived from the configured timeouts each must list the other exactly once, RPCs succeed both ways, no further events arrive and, when both dials succeeded, the survivor is the connection dialed by the greater PeerId; plus the complete tie-break table against the reference rule.",
+   NET_NOTE, TECH),
+ "C06": ("exploration", "DESIGN.md §8 C06",
+   "Seeded search over hostile scripts: an admitted raw QUIC peer writes random, mutated, truncated-at-every-offset and huge-length-prefixed bytes, resets/stops/abandons streams, opens uni streams, sends datagrams, exceeds stream limits and closes abruptly while an honest prober keeps calling; no panic, the Network stays open, every honest RPC and every well-formed RPC of the hostile peer is answered correctly, and new honest connections are still accepted.",
+   NET_NOTE, TECH),
+ "C07": ("fault_enumeration", "DESIGN.md §8 C07",
+   "The real codecs over a simulated byte stream (short reads/writes, Pending, EOF and I/O error at chosen offsets): per generated message every strict prefix, every altered preamble byte, every version != 1, every status code outside the closed set (all 65536) is enumerated and must be rejected without panic; encoder output equals an independent reference encoding and fixed golden vectors; decode(encode(m)) = m with extensions never travelling.",
+   "Wire codecs reached through cfg-guarded wrappers (hook H6); reference encoder written from the property text; message generator is sampled, the listed sub-spaces are enumerated completely per message.", "deterministic simulation of the byte-stream seam with fault enumeration (EOF / error / short I/O at every offset)"),
+ "C08": ("exploration", "DESIGN.md §8 C08",
+   "Seeded search over shutdown instants: 2-4 Networks with RPCs in both directions, dials to dead addresses, inbound handshakes over lossy links and concurrent API calls at the moment of explicit or drop-triggered shutdown, plus runtime teardown and partial teardown (quinn driver tasks aborted, fatal recv error) at PRNG instants; shutdown returns within the idle-wait bound, the address is re-bindable at once, every service clone is dropped, subscribers drain then end, weak references stop upgrading, remotes observe the loss, no API call hangs, no panic, and the simulation thread never stops making progress (watchdog).",
+   NET_NOTE + " Multi-threaded runtime teardown interleavings of anemo's own tasks have no add-only seam (DESIGN.md §11).", TECH),
+ "C09": ("exploration", "DESIGN.md §8 C09",
+   "Seeded search over histories of dials, disconnects and restarts among 3-5 Networks under a PRNG schedule of partitions, one-way blackholes, loss bursts and heals, followed by a fault-free tail longer than idle timeout + connect timeout: at the end A lists B iff B lists A and every listed peer answers an RPC; disconnect removes at once with LostPeer(Requested); every one-sided close/loss is reported by the other side within idle timeout + keep-alive interval + latency.",
+   NET_NOTE, TECH),
+ "C10": ("exploration", "DESIGN.md §8 C10",
+   "Seeded search over sequential admission histories (arrivals, explicit and background outbound dials, disconnects, replacements, affinity changes at run time) for limits {none,0,1,2,3} against the reference admission rule; the dialer's connect is Ok iff the model admits, peers() equals the model after every step; lossy configuration checks 'never over-admits' only.",
+   NET_NOTE, TECH),
+ "C11": ("exploration", "DESIGN.md §8 C11",
+   "Seeded search over (inbound default, outbound default, timeout header incl. 0, huge, overflowing, non-numeric, handler duration) on a constant-latency link so instants are exact to the millisecond: model deadline per side = min(default, parsed header); the handler is dropped exactly at the server deadline with a RequestTimeout reply or the caller errors exactly at its deadline; cases within 2L+quantum of a boundary are skipped; the real Builder::start wiring is what is exercised.",
+   NET_NOTE, TECH),
+ "C12": ("exploration", "DESIGN.md §8 C12",
+   "Seeded search over abandonment instants (before the stream opens, mid request, while the handler runs, mid response, never; by dropping the future or by the outbound timeout) across 10-400 calls against stream limits 2-8 with sibling calls: every handler of an abandoned call is dropped, within 2L+5 ms on a constant-latency link without bulk data or loss and within idle timeout otherwise; afterwards no handler is in flight and limit-many fresh calls succeed at once; siblings get their own responses.",
+   NET_NOTE, TECH),
+ "C13": ("exploration", "DESIGN.md §8 C13",
+   "Seeded search over known-peer tables, interval/backoff/cap configurations and reachability schedules spanning minutes of virtual time; connection attempts are observed on the fabric (first QUIC Initial with a fresh 20-byte destination id): never to self, Allowed/Never peers, connected or already-dialed peers; after k consecutive failures no earlier than min(max, k*step) after the noticing tick; addresses rotate in order; the in-flight cap holds; reachable High peers are connected within the stated bounds.",
+   NET_NOTE + " Jitter and eligible order fixed through hooks H3/H4.", TECH),
+ "C14": ("exploration", "DESIGN.md §8 C14",
+   "Seeded search over (primary, alternate) name configurations for both ends and both dial directions, plus an adversarial dialer choosing SNI and certificate name independently: established iff the dialer's primary name is accepted by the listener (fault-free), only-if under loss; a dialer never offers its alternate name (SNI observed by an adversarial listener); accepted SNI with a certificate for another name is refused.",
+   NET_NOTE, TECH),
+ "C15": ("exploration", "DESIGN.md §8 C15",
+   "Seeded search over limit placement {caller, callee, both, neither}, limit values and request/response header and body sizes at limit-2..limit+2 (header sizes from the reference encoder): within all limits delivered intact; above the sender's limit refused before transmission with no handler invocation; above the receiver's limit only that RPC fails; never a hang, a LostPeer or a broken follow-up RPC; thorough adds the 8 MiB boundary with no limit configured.",
+   NET_NOTE, TECH),
+ "C18": ("exploration", "DESIGN.md §8 C18",
+   "Seeded search over arrival, completion, failure and cancellation schedules from 2-4 peers through clones of one real InflightLimitLayer, driven directly on the virtual clock and end to end behind a Network: per-peer gauge never exceeds the limit, ReturnError refuses exactly when the model is at the limit, Block admits when a slot frees, no permit leaks after long histories, one peer never delays another.",
+   "Real anemo-tower layer and tokio semaphore under the simulator's scheduler and virtual clock; bounded histories.", TECH),
+ "C19": ("exploration", "DESIGN.md §8 C19",
+   "Frozen-clock regime only: quotas whose replenishment period exceeds a run's wall time by orders of magnitude, concurrent arrivals in PRNG order through clones: per peer exactly burst requests reach the service, refusals carry TooManyRequests with a positive wait-nanos hint and never reach the service, Block-mode excess stays pending, peers are independent. Replenishment arithmetic over time is governor's and has no seam here (not reached).",
+   "governor reads a real TSC clock and futures-timer's real timer thread; neither can be virtualised without rewriting rate_limit.rs, so only schedule-dependence is explored.", TECH + "; restricted to the frozen-clock regime"),
+ "C20": ("exploration", "DESIGN.md §8 C20",
+   "Seeded search end to end (sender identity comes from the simulated handshake, allow-list a PRNG subset of 3-5 peers, concurrent requests over the faulty fabric) and directly through clones of the layered service with listed/unlisted/absent senders and closure authorizers returning arbitrary responses: the wrapped service's log contains exactly the accepted requests and refusals carry exactly the authorizer's response.",
+   "Real anemo-tower layer; the layer holds no mutable state, so the schedule dimension is expected to be inert.", TECH),
 }
 
 NOT_APPLICABLE = {
@@ -26,6 +77,10 @@ PENDING_REASON = "check not built yet in this revision of /verif (work in progre
 def main():
     props = [json.loads(l)["id"] for l in open("/verif/properties.jsonl")]
     checks = []
+    built = set(l.split()[0] for l in subprocess.run(["/verif/sim/target/release/sim", "list"], capture_output=True, text=True).stdout.splitlines())
+    for pid in list(CLAIMED):
+        if pid not in built:
+            del CLAIMED[pid]
     for pid in props:
         if pid not in CLAIMED:
             continue
